@@ -141,6 +141,7 @@ class VLoop(asyncio.SelectorEventLoop):
         self.net = None
         self.endpoint_faults = []  # list of exceptions to raise from create_datagram_endpoint
         self.transports = []
+        self.creation_hook = None
         self._port = 40000
 
     def time(self):
@@ -158,6 +159,8 @@ class VLoop(asyncio.SelectorEventLoop):
         tr.owner = t.get_name() if t else None
         self.transports.append(tr)
         self.net.register(tr)
+        if self.creation_hook is not None:
+            self.creation_hook(tr)  # harness: act exactly while the endpoint is being opened
         self.call_soon(protocol.connection_made, tr)
         try:
             await asyncio.sleep(0)
